@@ -56,7 +56,7 @@ struct Run : ContBase {
         errno = poison;
         if (api == 0) { std::string v = gen_val(false); Buf vb(v); ok = qhashtbl_put(t, kb->c(), vb.p, vb.n); if (scribble) vb.scribble(); e = Ent{v, false}; }
         else if (api == 1) { std::string v = gen_val(true); Buf *vs = Buf::cstr(v); ok = qhashtbl_putstr(t, kb->c(), vs->c()); if (scribble) vs->scribble(); delete vs; e = Ent{v + std::string(1, '\0'), true}; }
-        else if (api == 2) { std::string v = gen_val(true, 40); long n = s.range(-1000, 1000); Buf *vs = Buf::cstr(v); ok = qhashtbl_putstrf(t, kb->c(), "%s/%ld", vs->c(), n); if (scribble) vs->scribble(); delete vs; e = Ent{v + "/" + std::to_string(n) + std::string(1, '\0'), true}; }
+        else if (api == 2) { long n = s.range(-1000, 1000); std::string v = gen_fmt_text(40, 1 + std::to_string(n).size()); Buf *vs = Buf::cstr(v); ok = qhashtbl_putstrf(t, kb->c(), "%s/%ld", vs->c(), n); if (scribble) vs->scribble(); delete vs; e = Ent{v + "/" + std::to_string(n) + std::string(1, '\0'), true}; }
         else {
             int64_t n; int kk = (int)s.pick({2, 1, 1, 4});
             n = kk == 0 ? 0 : kk == 1 ? INT64_MAX : kk == 2 ? INT64_MIN : (int64_t)((uint64_t)s.range(0, 0xffffffffll) * 2654435761ull * (uint64_t)s.range(1, 0xffff));
